@@ -300,7 +300,7 @@ class CSSStyleSheet(cssutils.stylesheets.StyleSheet):
 
         def unknownrule(expected, seq, token, tokenizer):
             # parse and consume tokens in any case
-            if token[1] in cssutils.css.MarginRule.margins:
+            if self._normalize(token[1]) in cssutils.css.MarginRule.margins:
                 self._log.error(
                     'CSSStylesheet: MarginRule out CSSPageRule.', token, neverraise=True
                 )
@@ -921,7 +921,11 @@ class CSSStyleSheet(cssutils.stylesheets.StyleSheet):
             self._updateVariables()
 
         # @top-left etc. belong into @page only
-        elif rule.type == rule.MARGIN_RULE:
+        elif rule.type == rule.MARGIN_RULE or (
+            rule.type == rule.UNKNOWN_RULE
+            and rule.atkeyword in cssutils.css.MarginRule.margins
+        ):
+            # (also as an unknown rule: it would be read as a margin rule)
             self._log.error(
                 'CSSStylesheet: A margin rule is only allowed in @page.',
                 error=xml.dom.HierarchyRequestErr,
